@@ -56,6 +56,19 @@ func main() {
 	flag.Parse()
 	runtime.GOMAXPROCS(1)
 	debug.SetGCPercent(400)
+	// memory watchdog: a defect that makes the code under test allocate without bound must not take the sandbox down
+	// (RLIMIT_AS is not usable: the Go runtime spins when its address-space reservations fail)
+	go func() {
+		var ms runtime.MemStats
+		for {
+			time.Sleep(250 * time.Millisecond)
+			runtime.ReadMemStats(&ms)
+			if ms.Sys > 12<<30 {
+				fmt.Fprintf(os.Stdout, "{\"kind\":\"%s\",\"name\":\"%s\",\"params\":\"%s\",\"error\":\"worker exceeded 12 GiB of memory and was stopped by its watchdog\"}\n", *mode, *name, *params)
+				os.Exit(3)
+			}
+		}
+	}()
 
 	var sh, nsh int
 	fmt.Sscanf(*shard, "%d/%d", &sh, &nsh)
@@ -92,6 +105,9 @@ func main() {
 			e.Deadline = start.Add(time.Duration(*budget * float64(time.Second)))
 		}
 		installRace(e)
+		if os.Getenv("VERIF_TRACE_ALL") != "" {
+			vsched.Trace = func(x *vsched.Exec, l string) { fmt.Fprintln(os.Stderr, l) }
+		}
 		if os.Getenv("VERIF_DEBUG_DIVERGE") != "" {
 			vsched.Trace = func(x *vsched.Exec, l string) { x.TraceLog = append(x.TraceLog, l) }
 			vsched.DebugDiverge = func(a, b *vsched.Exec, prefix []int) {
